@@ -1219,12 +1219,14 @@ func (d *indexData) newMatchTree(q query.Q, opt matchTreeOpt) (matchTree, error)
 			}
 			reposBranchesWant[repoIdx] = mask
 		}
-		return &docMatchTree{
-			reason:  "BranchesRepos",
-			numDocs: d.numDocs(),
-			predicate: func(docID uint32) bool {
-				return d.fileBranchMasks[docID]&reposBranchesWant[d.repos[docID]] != 0
-			},
+		// Like a branch query, so that the branches reported for a file are the
+		// requested ones. The sharded searcher rewrites BranchesRepos to a branch
+		// query for shards in which it selects every repository; what is reported
+		// must not depend on that.
+		return &branchQueryMatchTree{
+			masks:     reposBranchesWant,
+			fileMasks: d.fileBranchMasks,
+			repos:     d.repos,
 		}, nil
 
 	case *query.RepoSet:
